@@ -341,6 +341,7 @@ class Ref(object):
                     going = self.cafs and self.cafs_all
                     continue
                 st = None
+                o = P.BASE.get(o, o)        # exception-class variants behave like their base outcome
                 bfail = self.hook("before_step", (path, idx))
                 if not bfail and o.startswith("convert"):
                     st = "error"            # the argument converter raised: the step function is never called
